@@ -287,6 +287,17 @@ def graphFromMolfileText (text : Str) : PyM Graph := do
   let (g, _) ← graphFromMolecule atoms bonds
   pure g
 
+/-- text-mode `open(path).read()` (universal newlines): `\r\n` and a lone `\r` are translated to `\n` -/
+def universalNewlines : Str → Str
+  | [] => []
+  | '\r' :: '\n' :: r => '\n' :: universalNewlines r
+  | '\r' :: r => '\n' :: universalNewlines r
+  | c :: r => c :: universalNewlines r
+
+/-- `graph_from_file(path)` for a path whose suffix is `.mol`, given the decoded content of the file (the
+filesystem and the decoding are not modelled) -/
+def graphFromFileContent (decoded : Str) : PyM Graph := graphFromMolfileText (universalNewlines decoded)
+
 /-! ## writer -/
 
 /-- `_add_v30_line`: the physical lines for one logical line -/
